@@ -6,6 +6,7 @@ import (
 	"fmt"
 	"math/rand"
 	"net"
+	"regexp"
 	"sort"
 	"strconv"
 	"sync"
@@ -86,7 +87,7 @@ func genW(t *rapid.T, label string, lo, hi, maxMs int) []WOp {
 func Gen(t *rapid.T) Plan {
 	p := Plan{
 		Mode:    rapid.SampledFrom([]string{"single", "kind", "kind", "agg", "agg"}).Draw(t, "mode"),
-		Opt:     rapid.SampledFrom([]string{"plain", "contents", "contents", "bookmark", "tail", "label"}).Draw(t, "opt"),
+		Opt:     rapid.SampledFrom([]string{"plain", "contents", "contents", "bookmark", "tail", "label", "idquery", "label-id"}).Draw(t, "opt"),
 		NoRetry: rapid.IntRange(0, 5).Draw(t, "noretry") == 0,
 	}
 
@@ -97,7 +98,7 @@ func Gen(t *rapid.T) Plan {
 		p.Cap = [3]int{100, 100, 5}
 	}
 
-	if p.Mode == "single" && (p.Opt == "contents" || p.Opt == "bookmark" || p.Opt == "label") {
+	if p.Mode == "single" && (p.Opt == "contents" || p.Opt == "bookmark" || p.Opt == "label" || p.Opt == "idquery" || p.Opt == "label-id") {
 		p.Opt = "plain"
 	}
 
@@ -283,6 +284,11 @@ func startWatch(ctx context.Context, st state.CoreState, p Plan, c *collector) e
 		kopts = append(kopts, state.WithKindTailEvents(3))
 	case "label":
 		kopts = append(kopts, state.WithBootstrapContents(true), state.WatchWithLabelQuery(resource.LabelExists("k1")))
+	case "idquery":
+		kopts = append(kopts, state.WithBootstrapContents(true), state.WatchWithIDQuery(resource.IDRegexpMatch(regexp.MustCompile("^[ac]$"))))
+	case "label-id":
+		kopts = append(kopts, state.WithBootstrapBookmark(true), state.WatchWithLabelQuery(resource.LabelExists("k1")),
+			state.WatchWithIDQuery(resource.IDRegexpMatch(regexp.MustCompile("^[ab]$"))))
 	}
 
 	switch p.Mode {
